@@ -34,10 +34,10 @@ func fatal(f string, a ...interface{}) {
 
 // identifier shapes: position k (1-based, sorted) stands for the model's point k
 var idShapes = map[string][]party.ID{
-	"short":   {"a", "b", "c", "d", "e"},
-	"long32":  {"00000000000000000000000000000001", "party-two-with-a-32-byte-name-xx", "zzzzzzzzzzzzzzzzzzzzzzzzzzzzzzzz", "~~~~~~~~~~~~~~~~~~~~~~~~~~~~~~~~", "\x7f\x7f\x7f\x7f\x7f\x7f\x7f\x7f\x7f\x7f\x7f\x7f\x7f\x7f\x7f\x7f\x7f\x7f\x7f\x7f\x7f\x7f\x7f\x7f\x7f\x7f\x7f\x7f\x7f\x7f\x7f\x7f"},
-	"long40":  {"a-participant-identifier-of-40-bytes-...", "b-participant-identifier-of-40-bytes-...", "c-participant-identifier-of-40-bytes-...", "d-participant-identifier-of-40-bytes-...", "e-participant-identifier-of-40-bytes-..."},
-	"utf8":    {"Ærøskøbing", "Çanakkale", "Đà Nẵng", "Ōsaka", "北京"},
+	"short":    {"a", "b", "c", "d", "e"},
+	"long32":   {"00000000000000000000000000000001", "party-two-with-a-32-byte-name-xx", "zzzzzzzzzzzzzzzzzzzzzzzzzzzzzzzz", "~~~~~~~~~~~~~~~~~~~~~~~~~~~~~~~~", "\x7f\x7f\x7f\x7f\x7f\x7f\x7f\x7f\x7f\x7f\x7f\x7f\x7f\x7f\x7f\x7f\x7f\x7f\x7f\x7f\x7f\x7f\x7f\x7f\x7f\x7f\x7f\x7f\x7f\x7f\x7f\x7f"},
+	"long40":   {"a-participant-identifier-of-40-bytes-...", "b-participant-identifier-of-40-bytes-...", "c-participant-identifier-of-40-bytes-...", "d-participant-identifier-of-40-bytes-...", "e-participant-identifier-of-40-bytes-..."},
+	"utf8":     {"Ærøskøbing", "Çanakkale", "Đà Nẵng", "Ōsaka", "北京"},
 	"leadzero": {"\x00\x01", "\x00\x02", "\x00a", "\x01", "b"},
 }
 
@@ -166,7 +166,42 @@ func (w *world) keygen(label string) *version {
 	w.checkSharing(v, "C02", "after key generation")
 	// C14: everybody holds the same 32-byte chain key
 	w.checkChain(v, "after key generation")
+	// an application that keeps its start function and runs key generation with it a second time: the second session is
+	// refused, or fails, or yields material that is again a consistent sharing - and the first result stays intact
+	before := w.snap(v.mat)
+	protos.ReuseStartFuncs = true
+	for k := 0; k < 2; k++ {
+		r2, err := protos.Run(s, protos.RunOpts{Seed: fmt.Sprintf("%s/%s/keygen-reuse%d", w.seed, label, k), Sched: sim.NewRng(uint64(7 + k))})
+		if err != nil {
+			break
+		}
+		w.stats["sessions"]++
+		if r2.AllDone() && k == 1 {
+			w.checkSharing(&version{mat: r2.Results}, "C02", "after a second key generation started from the same start functions")
+		}
+	}
+	protos.ReuseStartFuncs = false
+	w.unchanged(before, v.mat, "C02", "a later key generation started from the same start functions")
 	return v
+}
+
+// snap / unchanged: an operation must not modify the key material objects it was given (the caller keeps using them).
+func (w *world) snap(mat map[party.ID]interface{}) map[party.ID]string {
+	out := map[party.ID]string{}
+	for id, m := range mat {
+		out[id] = protos.Canon(m)
+	}
+	return out
+}
+
+func (w *world) unchanged(before map[party.ID]string, mat map[party.ID]interface{}, prop, op string) bool {
+	for id, m := range mat {
+		if b, ok := before[id]; ok && protos.Canon(m) != b {
+			w.violate(prop, "key-material-changed", fmt.Sprintf("%s n=%d t=%d: %s changed the key material object of party %q that it was given (first difference: %s)", w.scheme, len(w.ids), w.t, op, id, firstDiff(b, protos.Canon(m))))
+			return false
+		}
+	}
+	return true
 }
 
 func (w *world) checkChain(v *version, when string) {
@@ -215,7 +250,12 @@ func (w *world) refresh(cur *version, label string) *version {
 	case "doerner":
 		s = protos.DoernerRefresh(w.ids[0], w.ids[1], mat[w.ids[0]].(*doerner.ConfigReceiver), mat[w.ids[1]].(*doerner.ConfigSender), []byte("rf"))
 	}
+	snapBefore := w.snap(mat)
 	r := w.run(s, label+"/refresh")
+	if w.scheme == "cmp" || w.scheme == "doerner" {
+		// (a FROST refresh adds to the caller's share object in place - as the library is; not part of a statement)
+		w.unchanged(snapBefore, mat, "C08", "a refresh")
+	}
 	if !r.AllDone() {
 		w.violate("C08", "honest-session-fails", "all-honest refresh did not complete: "+r.Describe())
 		return nil
@@ -298,6 +338,8 @@ func (w *world) derive(cur *version, label int) *version {
 		return nil
 	}
 	nv := &version{mat: map[party.ID]interface{}{}, path: append(append([]uint32(nil), cur.path...), idx)}
+	parentBefore := w.snap(cur.mat)
+	defer func() { w.unchanged(parentBefore, cur.mat, "C14", "a derivation") }()
 	for _, id := range w.ids {
 		var out interface{}
 		var err error
@@ -605,6 +647,17 @@ func (w *world) probe(h histT, vers []*version) {
 	if w.scheme == "cmp" && expect == "ok" && len(w.hist)%3 == 0 {
 		variants = append(variants, "presign")
 	}
+	if w.scheme != "cmp" && expect == "ok" {
+		// the same material OBJECTS sign a second time (another digest): signing must not wear the key material out
+		variants = append(variants, "sign-again")
+	}
+	// the signer list is handed over in no particular order
+	if len(w.hist)%2 == 1 {
+		for i, j := 0, len(S)-1; i < j; i, j = i+1, j-1 {
+			S[i], S[j] = S[j], S[i]
+		}
+	}
+	matBefore := w.snap(mat)
 	if h.Probe.Kind == "online" {
 		if w.scheme != "cmp" || expect == "refused" {
 			return
@@ -612,8 +665,15 @@ func (w *world) probe(h histT, vers []*version) {
 		variants = []string{"online"}
 	}
 	for _, variant := range variants {
+		if variant == "sign-again" {
+			msg = append([]byte(nil), msg...)
+			msg[len(msg)-1] ^= 0x40
+		}
 		st, cerr := runSign(variant)
 		w.stats["probes"]++
+		if expect == "ok" {
+			w.unchanged(matBefore, mat, "C01", "a signing session ("+variant+")")
+		}
 		// the group key the signature must verify under: the version everybody uses
 		var gv *judge.KeyView
 		if expect == "ok" {
